@@ -327,4 +327,247 @@ theorem outE_list_on {box : Bound α} {q : Pt α} (hq : InOpenBox box q)
   rw [Bool.not_eq_true]
   exact outE_on (hE se hse) hq
 
+/-! ### signed crossings: winding numbers
+
+  The same theory with signs, so that the ORIENTATION is seen: `sgnAbove s e p` is `+1` when the edge
+  passes above `p` from right to left (counter-clockwise round `p`), `-1` from left to right, `0` when
+  the upward ray from `p` does not cross it (same half-open convention as `crossesAbove`).  Summed over
+  the edges of a closed ring this is the winding number of the ring round `p`. -/
+
+/-- `1` / `0` -/
+def ind (b : Bool) : ℤ := if b then 1 else 0
+
+/-- signed crossing of the upward ray from `p` by the edge `s → e` -/
+def sgnAbove (s e p : Pt α) : ℤ :=
+  if s.x ≤ p.x ∧ p.x < e.x ∧ EvenOdd.cross s e p < 0 then -1
+  else if e.x ≤ p.x ∧ p.x < s.x ∧ 0 < EvenOdd.cross s e p then 1 else 0
+
+/-- sum of the signed crossings of an edge list: for the edges of a closed ring, its winding number -/
+def wE (E : List (Pt α × Pt α)) (q : Pt α) : ℤ := (E.map fun se => sgnAbove se.1 se.2 q).sum
+
+/-- the (integer) coboundary of `P` summed over an edge list -/
+def dZ (P : Pt α → ℤ) (E : List (Pt α × Pt α)) : ℤ := (E.map fun se => P se.2 - P se.1).sum
+
+/-- the integer potential of the signed edge lemma -/
+def potZ (box : Bound α) (q q' w : Pt α) : ℤ :=
+  if box.hi.y ≤ w.y then ind (decide (w.x ≤ q.x)) - ind (decide (w.x ≤ q'.x)) else 0
+
+theorem ind_true : ind true = 1 := rfl
+theorem ind_false : ind false = 0 := rfl
+
+theorem sgn_of_le {s e : Pt α} (h : s.x ≤ e.x) (p : Pt α) : sgnAbove s e p = - ind (crossesAbove s e p) := by
+  unfold sgnAbove
+  by_cases c1 : s.x ≤ p.x ∧ p.x < e.x ∧ EvenOdd.cross s e p < 0
+  · rw [if_pos c1, (crossesAbove_iff s e p).2 (Or.inl c1)]; rfl
+  · rw [if_neg c1]
+    have c2 : ¬ (e.x ≤ p.x ∧ p.x < s.x ∧ 0 < EvenOdd.cross s e p) := by
+      rintro ⟨a, b, _⟩; exact absurd (lt_of_le_of_lt a b) (not_lt.2 h)
+    rw [if_neg c2]
+    have : crossesAbove s e p = false := by
+      rw [← Bool.not_eq_true, crossesAbove_le h]; exact c1
+    rw [this]; rfl
+
+theorem sgn_of_ge {s e : Pt α} (h : e.x ≤ s.x) (p : Pt α) : sgnAbove s e p = ind (crossesAbove s e p) := by
+  unfold sgnAbove
+  by_cases c1 : s.x ≤ p.x ∧ p.x < e.x ∧ EvenOdd.cross s e p < 0
+  · exact absurd (lt_of_le_of_lt c1.1 c1.2.1) (not_lt.2 h)
+  · rw [if_neg c1]
+    by_cases c2 : e.x ≤ p.x ∧ p.x < s.x ∧ 0 < EvenOdd.cross s e p
+    · rw [if_pos c2, (crossesAbove_iff s e p).2 (Or.inr c2)]; rfl
+    · rw [if_neg c2]
+      have : crossesAbove s e p = false := by
+        rw [← Bool.not_eq_true, crossesAbove_iff]; rintro (a | a)
+        · exact c1 a
+        · exact c2 a
+      rw [this]; rfl
+
+theorem sgn_swap (s e p : Pt α) : sgnAbove e s p = - sgnAbove s e p := by
+  rcases le_total s.x e.x with h | h
+  · rw [sgn_of_le h, sgn_of_ge h, crossesAbove_swap]; simp
+  · rw [sgn_of_ge h, sgn_of_le h, crossesAbove_swap]
+
+theorem sgn_self (v p : Pt α) : sgnAbove v v p = 0 := by
+  rw [sgn_of_le (le_refl _), crossesAbove_self]; rfl
+
+theorem sgn_zero_of_cr {s e p : Pt α} (h : crossesAbove s e p = false) : sgnAbove s e p = 0 := by
+  rcases le_total s.x e.x with h' | h'
+  · rw [sgn_of_le h', h]; rfl
+  · rw [sgn_of_ge h', h]; rfl
+
+/-- the signed crossing of an edge is `±1` exactly when the ray crosses it -/
+theorem sgn_cases (s e p : Pt α) :
+    (crossesAbove s e p = false ∧ sgnAbove s e p = 0) ∨
+    (crossesAbove s e p = true ∧ (sgnAbove s e p = 1 ∨ sgnAbove s e p = -1)) := by
+  cases hc : crossesAbove s e p
+  · exact Or.inl ⟨rfl, sgn_zero_of_cr hc⟩
+  · right
+    refine ⟨rfl, ?_⟩
+    rcases le_total s.x e.x with h' | h'
+    · right; rw [sgn_of_le h', hc]; rfl
+    · left; rw [sgn_of_ge h', hc]; rfl
+
+theorem onSeg_symm {a b i : Pt α} (h : OnSeg a b i) : OnSeg b a i := by
+  obtain ⟨t, t0, t1, rfl⟩ := h
+  exact ⟨1 - t, by linarith, by linarith, lerp_swap a b t⟩
+
+theorem sgn_split_le {a b i : Pt α} (hab : a.x ≤ b.x) (h : OnSeg a b i) (p : Pt α) :
+    sgnAbove a b p = sgnAbove a i p + sgnAbove i b p := by
+  have hsp := crossesAbove_split h p
+  obtain ⟨t, t0, t1, rfl⟩ := h
+  have hd : 0 ≤ b.x - a.x := sub_nonneg.2 hab
+  have hai : a.x ≤ (lerp a b t).x := by simp only [lerp_x]; nlinarith
+  have hib : (lerp a b t).x ≤ b.x := by simp only [lerp_x]; nlinarith
+  rw [sgn_of_le hab, sgn_of_le hai, sgn_of_le hib, hsp]
+  have hnb : ¬ (crossesAbove a (lerp a b t) p = true ∧ crossesAbove (lerp a b t) b p = true) := by
+    rintro ⟨h1, h2⟩
+    rw [crossesAbove_le hai] at h1
+    rw [crossesAbove_le hib] at h2
+    exact absurd (lt_of_lt_of_le h1.2.1 h2.1) (lt_irrefl _)
+  revert hnb
+  cases crossesAbove a (lerp a b t) p <;> cases crossesAbove (lerp a b t) b p <;> simp [ind]
+
+/-- THE SIGNED SPLIT LEMMA -/
+theorem sgn_split {a b i : Pt α} (h : OnSeg a b i) (p : Pt α) :
+    sgnAbove a b p = sgnAbove a i p + sgnAbove i b p := by
+  rcases le_total a.x b.x with hab | hab
+  · exact sgn_split_le hab h p
+  · have := sgn_split_le hab (onSeg_symm h) p
+    rw [sgn_swap a b p, sgn_swap i b p, sgn_swap a i p] at this
+    linarith
+
+/-- an edge above `p`: the signed crossing is the coboundary of `w ↦ [w.x ≤ p.x]` -/
+theorem sgn_below (s e p : Pt α) (hs : p.y < s.y) (he : p.y < e.y) :
+    sgnAbove s e p = ind (decide (e.x ≤ p.x)) - ind (decide (s.x ≤ p.x)) := by
+  have hc := (edge_below s e p hs he).2
+  rcases le_total s.x e.x with h | h
+  · rw [sgn_of_le h, hc]
+    by_cases c1 : s.x ≤ p.x <;> by_cases c2 : e.x ≤ p.x
+    · simp [c1, c2, ind]
+    · simp [c1, c2, ind]
+    · exact absurd (le_trans h c2) c1
+    · simp [c1, c2, ind]
+  · rw [sgn_of_ge h, hc]
+    by_cases c1 : s.x ≤ p.x <;> by_cases c2 : e.x ≤ p.x
+    · simp [c1, c2, ind]
+    · exact absurd (le_trans h c1) c2
+    · simp [c1, c2, ind]
+    · simp [c1, c2, ind]
+
+/-! #### sums over edge lists -/
+
+theorem wE_nil (q : Pt α) : wE [] q = 0 := rfl
+theorem dZ_nil (P : Pt α → ℤ) : dZ P [] = 0 := rfl
+
+theorem wE_cons (s e : Pt α) (E : List (Pt α × Pt α)) (q : Pt α) : wE ((s, e) :: E) q = sgnAbove s e q + wE E q := by
+  unfold wE; rw [List.map_cons, List.sum_cons]
+
+theorem dZ_cons (P : Pt α → ℤ) (s e : Pt α) (E : List (Pt α × Pt α)) : dZ P ((s, e) :: E) = (P e - P s) + dZ P E := by
+  unfold dZ; rw [List.map_cons, List.sum_cons]
+
+theorem wE_append (E F : List (Pt α × Pt α)) (q : Pt α) : wE (E ++ F) q = wE E q + wE F q := by
+  unfold wE; rw [List.map_append, List.sum_append]
+
+theorem dZ_append (P : Pt α → ℤ) (E F : List (Pt α × Pt α)) : dZ P (E ++ F) = dZ P E + dZ P F := by
+  unfold dZ; rw [List.map_append, List.sum_append]
+
+theorem wE_perm {E F : List (Pt α × Pt α)} (h : E.Perm F) (q : Pt α) : wE E q = wE F q := by
+  unfold wE; exact (h.map _).sum_eq
+
+theorem dZ_perm {E F : List (Pt α × Pt α)} (h : E.Perm F) (P : Pt α → ℤ) : dZ P E = dZ P F := by
+  unfold dZ; exact (h.map _).sum_eq
+
+theorem dZ_chain (P : Pt α → ℤ) (a : Pt α) (l : List (Pt α)) : dZ P (chain (a :: l)) = P (lastD' a l) - P a := by
+  induction l generalizing a with
+  | nil => simp [chain, dZ_nil, lastD']
+  | cons b l ih =>
+    rw [chain_cons_cons, dZ_cons, ih b]
+    simp only [lastD']
+    ring
+
+theorem dZ_chain_closed (P : Pt α → ℤ) (a : Pt α) (l : List (Pt α)) (hc : lastD' a l = a) :
+    dZ P (chain (a :: l)) = 0 := by
+  rw [dZ_chain, hc]; ring
+
+/-- the parity of the winding sum is the crossing parity: even-odd = odd winding number -/
+theorem wE_emod (E : List (Pt α × Pt α)) (q : Pt α) : wE E q % 2 = ind (crE E q) := by
+  induction E with
+  | nil => rfl
+  | cons se E ih =>
+    obtain ⟨s, e⟩ := se
+    rw [wE_cons, crE_cons]
+    have i00 : ind (false != false) = 0 := rfl
+    have i01 : ind (false != true) = 1 := rfl
+    have i10 : ind (true != false) = 1 := rfl
+    have i11 : ind (true != true) = 0 := rfl
+    have j0 : ind false = 0 := rfl
+    have j1 : ind true = 1 := rfl
+    rcases sgn_cases s e q with ⟨h1, h2⟩ | ⟨h1, h2 | h2⟩ <;> rw [h1, h2] <;> cases hc : crE E q <;>
+      rw [hc] at ih <;> simp only [i00, i01, i10, i11, j0, j1] at ih ⊢ <;> omega
+
+/-! #### the signed edge lemma -/
+
+theorem outE_sgn_down {box : Bound α} (hb : BoxOK box) {s e q q' : Pt α} (hs : box.hi.y ≤ s.y) (he : e.y < box.hi.y)
+    (hO : OutE box s e) (hq : InOpenBox box q) (hq' : InOpenBox box q') :
+    sgnAbove s e q - sgnAbove s e q' = potZ box q q' e - potZ box q q' s := by
+  have hd : 0 < s.y - e.y := by linarith
+  have ht0 : 0 ≤ (s.y - box.hi.y) / (s.y - e.y) := div_nonneg (by linarith) hd.le
+  have ht1 : (s.y - box.hi.y) / (s.y - e.y) ≤ 1 := by rw [div_le_one hd]; linarith
+  set t := (s.y - box.hi.y) / (s.y - e.y) with ht
+  have hmy : (lerp s e t).y = box.hi.y := by
+    simp only [lerp_y, ht]; field_simp; ring
+  have hseg : OnSeg s e (lerp s e t) := onSeg_lerp s e ht0 ht1
+  have hO2 : OutE box (lerp s e t) e := by
+    have := hO.sub ht0 ht1 (le_refl 1)
+    rwa [lerp_one] at this
+  have hm : (lerp s e t).x ≤ box.lo.x ∨ box.hi.x ≤ (lerp s e t).x := by
+    by_contra hcon
+    rw [not_or, not_le, not_le] at hcon
+    exact top_touch hb hmy hcon.1 hcon.2 he hO2
+  have c2 : ∀ p, InOpenBox box p → sgnAbove (lerp s e t) e p = 0 :=
+    fun p hp => sgn_zero_of_cr (low_no_cross hb hmy.le he hO2 hp)
+  have c1 : ∀ p, InOpenBox box p → sgnAbove s (lerp s e t) p =
+      ind (decide ((lerp s e t).x ≤ p.x)) - ind (decide (s.x ≤ p.x)) :=
+    fun p hp => sgn_below s (lerp s e t) p (lt_of_lt_of_le hp.2.2.2 hs) (by rw [hmy]; exact hp.2.2.2)
+  have gm : ∀ p, InOpenBox box p → decide ((lerp s e t).x ≤ p.x) = decide ((lerp s e t).x ≤ box.lo.x) := by
+    intro p hp
+    rcases hm with h | h
+    · rw [decide_eq_true h, decide_eq_true (le_trans h hp.1.le)]
+    · rw [decide_eq_false (not_le.2 (lt_of_lt_of_le hp.2.1 h)),
+        decide_eq_false (not_le.2 (lt_of_lt_of_le hb.1 h))]
+  rw [sgn_split hseg q, sgn_split hseg q', c2 q hq, c2 q' hq', c1 q hq, c1 q' hq', gm q hq, gm q' hq']
+  unfold potZ
+  rw [if_pos hs, if_neg (not_le.2 he)]
+  ring
+
+/-- THE SIGNED EDGE LEMMA: for an edge that avoids the open box, the signed crossings seen from two
+    points of the open box differ by the coboundary of `potZ box q q'`. -/
+theorem outE_sgn {box : Bound α} (hb : BoxOK box) {s e q q' : Pt α} (hO : OutE box s e)
+    (hq : InOpenBox box q) (hq' : InOpenBox box q') :
+    sgnAbove s e q - sgnAbove s e q' = potZ box q q' e - potZ box q q' s := by
+  rcases le_or_gt box.hi.y s.y with hs | hs <;> rcases le_or_gt box.hi.y e.y with he | he
+  · rw [sgn_below s e q (lt_of_lt_of_le hq.2.2.2 hs) (lt_of_lt_of_le hq.2.2.2 he),
+      sgn_below s e q' (lt_of_lt_of_le hq'.2.2.2 hs) (lt_of_lt_of_le hq'.2.2.2 he)]
+    unfold potZ
+    rw [if_pos hs, if_pos he]
+    ring
+  · exact outE_sgn_down hb hs he hO hq hq'
+  · have := outE_sgn_down hb he hs hO.symm hq hq'
+    rw [sgn_swap s e q, sgn_swap s e q'] at this
+    linarith
+  · rw [sgn_zero_of_cr (low_no_cross hb hs.le he hO hq), sgn_zero_of_cr (low_no_cross hb hs.le he hO hq')]
+    unfold potZ
+    rw [if_neg (not_le.2 hs), if_neg (not_le.2 he)]
+
+theorem outE_list_sgn {box : Bound α} (hb : BoxOK box) {q q' : Pt α} (hq : InOpenBox box q) (hq' : InOpenBox box q')
+    (E : List (Pt α × Pt α)) (hE : ∀ se ∈ E, OutE box se.1 se.2) :
+    wE E q - wE E q' = dZ (potZ box q q') E := by
+  induction E with
+  | nil => rfl
+  | cons se E ih =>
+    obtain ⟨s, e⟩ := se
+    have h1 := outE_sgn hb (hE (s, e) List.mem_cons_self) hq hq'
+    have h2 := ih (fun x hx => hE x (List.mem_cons_of_mem _ hx))
+    rw [wE_cons, wE_cons, dZ_cons]
+    linarith
+
 end Orb.Clip.C16R
